@@ -500,11 +500,8 @@ def profile_rules(rep, prog):
 
 
 def check_config(rep, prog):
-    platonic_rules(rep, prog)
-    normal_rules(rep, prog)
-    build_rules(rep, prog)
-    lathe_rules(rep, prog)
-    profile_rules(rep, prog)
+    for g in (platonic_rules, normal_rules, build_rules, lathe_rules, profile_rules):
+        rep.guard(g, rep, prog)
 
 
 def check(rep, args):
